@@ -42,6 +42,13 @@ func c05Families(c *core.Ctx) {
 			}
 		}
 	}
+	// a width-hint format (OpenAPI: float, double, int32, int64) is an annotation: the bounds stay enforced whatever it is
+	for _, kf := range [][2]string{{"number", "float"}, {"number", "double"}, {"integer", "int32"}, {"integer", "int64"}} {
+		for _, pos := range []string{"required", "optional"} {
+			sp := &fam.Spec{Kind: kf[0], Format: kf[1], Kw: []string{"minimum", "maximum", "multipleOf"}}
+			ms = append(ms, member{name: kf[0] + " with width-hint format " + pos + " " + sp.String(), cfg: gen.DefaultConfig(), root: place(sp, pos)})
+		}
+	}
 	// numerics whose field is only renamed by a goJSONSchema.identifier block keep every check
 	for _, kind := range []string{"integer", "number"} {
 		for _, pos := range []string{"ext-required", "ext-optional"} {
